@@ -758,12 +758,43 @@ class Interp:
             st.facts[('truth', target.id)] = bool(
                 st.facts.pop(('comp-elements', str(id(value))), False))
         if isinstance(target, ast.Name) and aug is None:
+            if isinstance(value, ast.IfExp):
+                # `x = a if c else None`: the branch taken on this path
+                value = self._taken_branch(value, st, fr)
             self._constant_flag(st, target.id, value)
             self._display_length(st, target.id, value)
             if isinstance(value, (ast.Call, ast.Await)):
                 # `ok = self._helper()` where the helper, run in place, returned a constant
                 self._constant_flag(st, target.id, self._helper_returned(value, st))
                 self._returned_facts(st, target.id, self._helper_returned(value, st))
+
+    def _taken_branch(self, value, st: St, fr: DynFrame):
+        """the operand a (nested) conditional expression evaluated to on this path, by the
+        outcomes of its tests just recorded; the expression itself when undecided"""
+        def observed(test):
+            if isinstance(test, ast.UnaryOp) and isinstance(test.op, ast.Not):
+                inner = observed(test.operand)
+                return None if inner is None else not inner
+            if isinstance(test, ast.BoolOp):
+                is_and = isinstance(test.op, ast.And)
+                for part in test.values:
+                    got = observed(part)
+                    if got is None:
+                        return None
+                    if got != is_and:
+                        return got
+                return is_and
+            for event in reversed(st.events[-40:]):
+                if event.kind == 'test' and event.node is test and \
+                        event.data.get('fid') == fr.fid:
+                    return bool(event.data.get('value'))
+            return None
+        while isinstance(value, ast.IfExp):
+            taken = observed(value.test)
+            if taken is None:
+                break
+            value = value.body if taken else value.orelse
+        return value
 
     @staticmethod
     def _constant_flag(st: St, name: str, value):
